@@ -235,9 +235,10 @@ class Ref:
                 carry = self.E.ev(st["init"], env)
                 xs = self.E.ev(st["xs"], env)
                 outs, chs = [], []
+                skw = {n: self.E.ev(x, env) for n, x in st.get("kwargs", {}).items()}
                 for t in range(st["length"]):
                     st_sub = _index(sub, t) if sub is not None else None
-                    (carry, o), ch = self.fn(st["step"], [carry, np.asarray(xs)[t]], {}, st_sub, p, idx + (("s", t),))
+                    (carry, o), ch = self.fn(st["step"], [carry, np.asarray(xs)[t]], skw, st_sub, p, idx + (("s", t),))
                     outs.append(o)
                     chs.append(ch)
                 env[addr] = (carry, _stack(outs))
